@@ -279,14 +279,13 @@ def castUntyped : Seq → Except Err Seq
     let r ← castUntyped rest
     pure (a :: r)
 
-/-- fn:sum applied to nodes: their typed values (xs:untypedAtomic) are cast to xs:double.  A node
-whose string value is not in the lexical space of xs:double must give FORG0001; elementpath
-raises FORG0006 there (known finding F08u), the case is outside the modelled fragment. -/
+/-- fn:sum applied to nodes: their typed values (xs:untypedAtomic) are cast to xs:double; a node
+whose string value is not in the lexical space of xs:double gives FORG0001 -/
 def castNodes (doc : List String) : Seq → Except Err Seq
   | [] => .ok []
   | .node i :: rest =>
     match lexDouble (doc.getD i "") with
-    | none => .error .UNSUPPORTED
+    | none => .error .FORG0001
     | some d => do
       let r ← castNodes doc rest
       pure (.dbl d :: r)
@@ -372,10 +371,18 @@ def IsExtremeOfConverted (isMax : Bool) (s : Seq) (r : D) : Prop :=
 /-- "the promotion to xs:double is monotone on the values of `s`": whenever the promoted `x` is
 below the promoted `y`, the exact `x` is below the exact `y`.  True for every sequence of
 representable doubles, integers and decimals because IEEE 754 round-to-nearest is monotone; that
-fact about the kernel function `rnd` is not proved, the condition is decidable per input and the
-driver evaluates it on every fn:max / fn:min it runs. -/
+is theorem `rnd_mono` (EPV/Lemmas/SeqFunsRnd.lean), from which `promotionMonotoneOn_of_good` derives the
+condition for every sequence whose doubles satisfy `goodItem`; the driver still evaluates it on every
+fn:max / fn:min it runs. -/
 def promotionMonotoneOn (s : Seq) : Bool :=
   s.all fun x => s.all fun y => !(D.lt (toDouble x) (toDouble y)) || XV.lt (exact x) (exact y)
+
+/-- representation invariant of the items: a `.dbl d` is a binary64 value (`D.isRep`: NaN, ±INF, −0 or
+a dyadic that round-to-nearest maps to itself).  The type `D` also has dyadics with more than 53
+significant bits, which no xs:double denotes. -/
+def goodItem : Atom → Bool
+  | .dbl d => d.isRep
+  | _ => true
 
 /-- fn:sum / fn:avg / fn:max / fn:min on arbitrary items: untyped values and nodes are cast first -/
 def fnSum (sm : Summation) (doc : List String) (s : Seq) (zero : Option Seq) : R :=
@@ -439,12 +446,6 @@ def subsequence2R {α : Type} (xs : List α) (s : D) : List α :=
   filterPos (fun i => leD s (ofPos i)) xs
 def subsequence3R {α : Type} (xs : List α) (s l : D) : List α :=
   filterPos (fun i => leD s (ofPos i) && ltD (ofPos i) (D.add s l)) xs
-
-/-- trigger of finding F08u: fn:sum over a node whose string value is not a valid xs:double (and no
-invalid xs:untypedAtomic item, whose FORG0001 comes first) -/
-def sumNodeInvalid (doc : List String) (s : Seq) : Bool :=
-  (match castUntyped s with | .ok _ => true | .error _ => false) &&
-  s.any fun a => match a with | .node i => (lexDouble (doc.getD i "")).isNone | _ => false
 
 def applyFn1 (sm : Summation) (cl : Coll) (doc : List String) (f : Fn1) (v : Seq) : R :=
   match f with
